@@ -5,7 +5,7 @@ from pbt.props import _e1
 
 ID = 'C05'
 LEVEL = 'exploration'
-RULE = ('E1 histories with identity groups of 0-4 identities, more members '
+RULE = ('70% E1 histories (pure scheduler API) and 30% E2 histories (Master + ZkBackend + masterapi on the fake ZooKeeper, incl. reload/restore/restart paths of loader.py); E1 histories with identity groups of 0-4 identities, more members '
         'than identities, grow/shrink/delete/re-create between cycles, '
         'eviction, server failure, blacklisting, schedule-once. After every '
         'cycle identities are recomputed from the instances. Non-trivial = '
@@ -16,7 +16,7 @@ ASSUMPTIONS = [
     'group count changes reach the cell through configure_identity_group / '
     'remove_identity_group as Loader.load_identity_groups does',
 ]
-TRUSTED = ['pbt/cellsim.py', 'pbt/oracles.py']
+TRUSTED = ['pbt/cellsim.py', 'pbt/mastersim.py', 'pbt/fakezk.py', 'pbt/oracles.py']
 BUDGET = {'quick': 6000, 'thorough': 160000}
 
 PROFILE = {
@@ -28,8 +28,11 @@ PROFILE = {
 }
 
 
+E2_PROFILE = {'weights': {'app': 14, 'idg': 5, 'rmidg': 2, 'bl': 3, 'down': 3, 'rmsrv': 2, 'restart': 2, 'resize': 2}, 'force': ['idg']}
+
+
 def strategy(tier):
-    return gen.cell_case(PROFILE)
+    return gen.tagged(PROFILE, E2_PROFILE, e2_share=3)
 
 
 def watch(sim, info, flags):
